@@ -504,8 +504,15 @@ Linearizable(s, ops, orc, ch, tip, log, sentObserved) ==
         polled == \E i \in 1..Len(ops) : ops[i].op = "poll"
         steps == IF polled THEN ChainSteps(ch) ELSE <<>>
         n == Len(apis)
+        \* real-time order: an operation invoked after `lo` listener calls had returned is linearized after them, one that
+        \* returned before call number hi + 1 started is linearized before it
+        lo(k) == IF "lo" \in DOMAIN apis[k] THEN apis[k].lo ELSE 0
+        hi(k) == IF "hi" \in DOMAIN apis[k] /\ apis[k].hi <= Len(steps) THEN apis[k].hi ELSE Len(steps)
     IN \E f \in Permutations(1..n) : \E pos \in [1..n -> 0..Len(steps)] :
           /\ \A i \in 1..(n - 1) : pos[f[i]] <= pos[f[i + 1]]
+          /\ \A k \in 1..n : lo(k) <= pos[k] /\ pos[k] <= hi(k)
+          \* an operation that returned before another one was invoked comes first
+          /\ \A i, j \in 1..n : (i < j /\ "ret" \in DOMAIN apis[f[j]] /\ "inv" \in DOMAIN apis[f[i]]) => ~(apis[f[j]].ret < apis[f[i]].inv)
           /\ LET r == RunMerged(s, apis, f, pos, steps, 0, 1, orc, {})
                  fin == IF polled THEN (IF Len(ch) = 0 THEN PollCommonF(r.st) ELSE PollOkF(r.st, tip)) ELSE r.st
              IN r.ok /\ ConcStateOk(fin, log) /\ r.sends = sentObserved
